@@ -24,13 +24,13 @@ def make_source_set(rng, n, max_msgs, allow_unsorted=False, force_many=False):
         letter = chr(ord("A") + w)
         k = rng.choice([0, 1, 2, 3, max_msgs, max_msgs]) if not force_many else rng.randint(6, max_msgs + 6)
         k = min(k, max_msgs + 6)
-        frac = rng.choice([3, 6, 9, 9, 0])
+        # 0..9 fractional digits (each source its own width: .NET writes 7, Java 3, syslog-ng 6, journald-derived 9 ...)
+        frac = rng.choice([3, 6, 9, 9, 0, 1, 2, 4, 5, 7, 7, 8])
         # near-equal instants: differences of 1 ns, < 1 us, 1 us, 1 ms and whole seconds, as far as the
         # number of fractional digits written allows
-        nano_choices = {0: [0],
-                        3: [0, 0, 1_000_000, 500_000_000, 999_000_000],
-                        6: [0, 0, 1_000, 2_000, 1_000_000, 500_000_000, 999_999_000],
-                        9: [0, 0, 1, 100, 900, 999, 1_000, 1_001, 1_000_000, 500_000_000, 999_999_999]}[frac]
+        unit = 10 ** (9 - frac)
+        nano_choices = sorted({(x // unit) * unit for x in (0, 0, 1, 100, 900, 999, 1_000, 1_001, 2_000, 1_000_000, 123_456_789, 150_000_000,
+                                                           300_000_000, 500_000_000, 999_000_000, 999_999_000, 999_999_999)}) + [0]
         inst = []
         for _ in range(k):
             sec = gen.BASE + rng.randrange(grid_secs)
@@ -254,6 +254,19 @@ def run(pid, tier, seed):
                     shapes.append("sumerr")
                 else:
                     shapes.append("ok")
+            # the instant every worker announces for its i-th message is the instant that message denotes (the merge is
+            # specified over these): read off the SendStart events, compared with the generator's ground truth
+            bad_inst = None
+            for e in r.trace:
+                if e["ev"] == "SendStart" and e.get("k") == 1:
+                    w_, i_ = int(e["t"][1:]), e["i"]
+                    if w_ < len(src2) and i_ < len(src2[w_]) and (e["ds"], e["dn"]) != (src2[w_][i_].sec, src2[w_][i_].nanos):
+                        bad_inst = (w_, i_, (e["ds"], e["dn"]), (src2[w_][i_].sec, src2[w_][i_].nanos))
+                        break
+            if bad_inst:
+                rep.violation("announced-instant", "source %d message %d enters the merge with instant %s, its timestamp denotes %s"
+                              % bad_inst, case.replay_record(r))
+                continue
             recs = [runmodel.reset_record(dts2, shapes)] + runmodel.annotate(r.trace, ranks)
             cur.append((recs, case, label))
             if sum(len(x[0]) for x in cur) > 4000:
